@@ -120,6 +120,15 @@ def r16_1(cx):
             stop.append((b, be[0]))
             pops = [cs for cs in f.calls(SL + '::pop_back')]
             pop_ok = all(cs.bb in f.reachable(be[1], cut_blocks=[b]) and cs.bb not in f.reachable(be[0], cut_blocks=[b]) for cs in pops) and bool(pops)
+        # the same two tests in one: back().is_some_and(|back| is_erased(back))
+        if is_call(e, 'is_some_and') and is_call(e.strip().args[0], SL + '::back'):
+            cl = closure_of(cx.prog, e.strip().args[1])
+            r = cl.local_expr(0, []).strip() if cl is not None else None
+            be = f.bool_edges(b)
+            if r is not None and m_erased(r) and 2 in r.params() and be:
+                stop += [(b, be[0]), (b, be[0])]
+                pops = [cs for cs in f.calls(SL + '::pop_back')]
+                pop_ok = all(cs.bb in f.reachable(be[1], cut_blocks=[b]) and cs.bb not in f.reachable(be[0], cut_blocks=[b]) for cs in pops) and bool(pops)
     cx.check(len(stop) == 2 and f.is_cut(stop, f.returns()), 'back-cleanup-stops', f, None,
              'returns only through `back() is None` or `!is_erased(back)` (edges %s)' % stop,
              fail_detail='the back cleanup can return while the last item is still a tombstone (stop edges found: %s)' % stop)
@@ -268,6 +277,8 @@ def r16_3(cx):
         found = any((o := some_of(e, v)) is not None and o.has_call('find_index') for e, v, ed in fn.facts_at(pos.bb))
         cx.check(found, 'last-index-after-found#%d' % k, fn, fn.loc(pos.bb, pos.idx), 'len() - 1 only where find_index returned Some (the deque is not empty)',
                  fail_detail='len() - 1 is computed before an item is known to exist: remove() on an empty deque underflows (panics in checked builds)')
+    if not subs:
+        cx.ok('last-index-after-found#0', fn, None, 'no len() - 1 is computed (the last index is tested as idx + 1 == len): nothing to underflow')
     marks = list(fn.calls('mark_erased'))
     cx.require(len(marks) == 1, 'remove no longer has exactly one mark_erased call')
     mk = marks[0]
@@ -284,6 +295,10 @@ def r16_3(cx):
                     not_first = True
                 if x.has_call('find_index') and y.kind == 'binop' and y.op == 'Sub' and y.b.is_const_int(1) and is_call(y.a, 'len') \
                         and rooted_in_param_field(y.a, 'items') and o in ('Ne', 'Lt'):
+                    not_last = True
+                # the same test spelled idx + 1 != len
+                if x.kind == 'binop' and x.op == 'Add' and x.a.has_call('find_index') and x.b.is_const_int(1) and is_call(y, 'len') \
+                        and rooted_in_param_field(y, 'items') and o in ('Ne', 'Lt'):
                     not_last = True
         x = m.erased_of(e)
         if x is not None and val is False:
